@@ -6,7 +6,9 @@ replays exactly.  Used by the correspondence checks and by the oracle searches.
 import string
 
 WORDS = ["alpha", "beta", "gamma", "delta", "foo", "bar", "baz", "Lorem", "ipsum", "x", "y1", "Zed",
-         "HTML", "a1b2", "word", "code", "http", "www", "em", "q"]
+         "HTML", "a1b2", "word", "code", "http", "www", "em", "q",
+         # East Asian wide and full-width words (no spaces between words in such text: a line may be wrapped between two of them)
+         "\u6f22\u5b57", "\u304b\u306a\u3092", "\uff57\uff49\uff44\uff45", "\u3002"]
 
 UNI = ["\u00a0", "\u2003", "\u00e9", "\u00df", "\u03a3", "\u03c2", "\u0130", "\u4e2d", "\U0001f600", "\u0301",
        "\x0b", "\x0c", "\x1c", "\x85", "\u2028"]
@@ -434,7 +436,9 @@ def edge_doc(r, plugins=()):
 
 
 WRAP_OPEN_CLOSE = [("`a", "b`"), ("``a `", "b``"), ('<b class="x', 'y">z</b>'), ("<i\n", "id=k>w</i>"), ("[text", "more](/u)"), ("[t](/u 'ti", "tle')"), ("*em", "ph*"),
-                   ("**str", "ong**"), ("<!-- c", "d -->"), ("![al", "t](/i.png)"), ("<http://e.x/a", "b>"), ("~~de", "l~~"), ("$a", "b$"), ("_u", "v_")]
+                   ("**str", "ong**"), ("<!-- c", "d -->"), ("![al", "t](/i.png)"), ("<http://e.x/a", "b>"), ("~~de", "l~~"), ("$a", "b$"), ("_u", "v_"),
+                   # plain words on both sides of the line break: Latin, East Asian wide, full-width, mixed
+                   ("plain", "words"), ("\u6f22\u5b57\u3068", "\u4eee\u540d\u3092"), ("\uff57\uff49", "\uff44\uff45"), ("\u66f8\u304f\u3002", "\u6b21"), ("wide\u5b57", "Latin"), ("x", "\u5b57")]
 
 
 def wrapped_doc(r):
